@@ -248,12 +248,41 @@ enum Msg {
     Eof(usize),
 }
 
+/// CPU seconds (user + system) consumed so far by process `pid`, from /proc/<pid>/stat. The
+/// watchdog measures CPU time and not wall time: on a loaded machine a run that needs 2 CPU
+/// seconds can take minutes of wall time, and a hang in single-threaded, lock-free code is a loop
+/// that burns CPU. Wall time is only a distant backstop (a process that is blocked, not spinning).
+fn cpu_seconds(pid: u32) -> Option<f64> {
+    let stat = std::fs::read_to_string(format!("/proc/{pid}/stat")).ok()?;
+    // the command name (field 2) may contain spaces: parse after the closing parenthesis
+    let rest = &stat[stat.rfind(')')? + 1..];
+    let f: Vec<&str> = rest.split_whitespace().collect();
+    // rest starts at field 3 (state); utime is field 14, stime field 15
+    let utime: f64 = f.get(11)?.parse().ok()?;
+    let stime: f64 = f.get(12)?.parse().ok()?;
+    Some((utime + stime) / 100.0)
+}
+
+/// has the child used more than `cpu_limit_s` CPU seconds since `cpu_base`, or been alive for more
+/// than the wall-clock backstop since `wall_start`?
+fn over_budget(pid: u32, cpu_base: f64, wall_start: Instant, cpu_limit_s: u64) -> bool {
+    let backstop = Duration::from_secs((cpu_limit_s * 20).max(1800));
+    if wall_start.elapsed() > backstop {
+        return true;
+    }
+    match cpu_seconds(pid) {
+        Some(c) => c - cpu_base > cpu_limit_s as f64,
+        None => false,
+    }
+}
+
 struct Slot {
     child: Child,
     start: u64,
     end: u64,
     current: Option<u64>,
     last_progress: Instant,
+    cpu_at_progress: f64,
     got_agg: bool,
 }
 
@@ -290,7 +319,7 @@ fn spawn_worker(
         }
         let _ = tx.send(Msg::Eof(slot_id));
     });
-    Slot { child, start, end, current: None, last_progress: Instant::now(), got_agg: false }
+    Slot { child, start, end, current: None, last_progress: Instant::now(), cpu_at_progress: 0.0, got_agg: false }
 }
 
 fn run_scenario(exe: &std::path::Path, sc: &Scenario, base: u64, total: u64, jobs: usize) -> ScenarioAgg {
@@ -339,6 +368,7 @@ fn run_scenario(exe: &std::path::Path, sc: &Scenario, base: u64, total: u64, job
             Ok(Msg::Line(i, line)) => {
                 let Some(slot) = slots[i].as_mut() else { continue };
                 slot.last_progress = Instant::now();
+                slot.cpu_at_progress = cpu_seconds(slot.child.id()).unwrap_or(slot.cpu_at_progress);
                 // protocol lines start with '@'; anything else is output of the code under test
                 let Some(line) = line.strip_prefix('@') else { continue };
                 let (tag, rest) = line.split_at(line.len().min(1));
@@ -435,7 +465,7 @@ fn run_scenario(exe: &std::path::Path, sc: &Scenario, base: u64, total: u64, job
         // watchdog
         for i in 0..jobs {
             let hung = match slots[i].as_ref() {
-                Some(s) => s.last_progress.elapsed() > watchdog,
+                Some(s) => over_budget(s.child.id(), s.cpu_at_progress, s.last_progress, watchdog.as_secs()),
                 None => false,
             };
             if hung {
@@ -449,7 +479,7 @@ fn run_scenario(exe: &std::path::Path, sc: &Scenario, base: u64, total: u64, job
                     violation: Violation::new(
                         "hang",
                         "watchdog",
-                        format!("run {idx} made no progress for {} s", sc.watchdog_s),
+                        format!("run {idx} made no progress within {} CPU seconds", sc.watchdog_s),
                     ),
                 });
                 agg.runs += idx + 1 - slot.start;
@@ -615,7 +645,7 @@ fn eval_subproc(exe: &std::path::Path, sc: &Scenario, values: &[Vec<u64>; 3]) ->
         .spawn()
         .ok()?;
     let start = Instant::now();
-    let limit = Duration::from_secs(sc.watchdog_s.min(20));
+    let limit = sc.watchdog_s.min(20);
     loop {
         match child.try_wait() {
             Ok(Some(status)) => {
@@ -635,7 +665,7 @@ fn eval_subproc(exe: &std::path::Path, sc: &Scenario, values: &[Vec<u64>; 3]) ->
                 return Some("process-died|abort-or-signal".to_string());
             },
             Ok(None) => {
-                if start.elapsed() > limit {
+                if over_budget(child.id(), 0.0, start, limit) {
                     let _ = child.kill();
                     let _ = child.wait();
                     let _ = std::fs::remove_file(&path);
@@ -856,7 +886,7 @@ fn write_replay(
         loop {
             match child.try_wait() {
                 Ok(Some(_)) => break,
-                Ok(None) if t0.elapsed() > Duration::from_secs(sc.watchdog_s.min(30)) => {
+                Ok(None) if over_budget(child.id(), 0.0, t0, sc.watchdog_s.min(30)) => {
                     let _ = child.kill();
                     let _ = child.wait();
                     break;
@@ -1052,7 +1082,7 @@ fn replay(scs: &[Scenario], exe: &std::path::Path, args: &[String]) -> i32 {
                     return 1;
                 },
                 Ok(None) => {
-                    if start.elapsed() > Duration::from_secs(sc.watchdog_s) {
+                    if over_budget(child.id(), 0.0, start, sc.watchdog_s) {
                         let _ = child.kill();
                         let _ = child.wait();
                         println!("REPRODUCED hang|watchdog");
